@@ -35,8 +35,11 @@ int write_wdc(Memory *memory, FILE *out)
 
   putc('Z', out);
 
-  for (n = memory->low_address; n <= memory->high_address; n++)
+  // 64 bit counter: high_address can be 0xffffffff and a 32 bit one would wrap.
+  for (uint64_t a = memory->low_address; a <= memory->high_address; a++)
   {
+    n = (uint32_t)a;
+
     if (memory->read_debug(n) == DL_EMPTY || length == 65536)
     {
       if (length != 0)
